@@ -1,4 +1,6 @@
 import Balm.Impl.Control
+import Balm.Impl.Strict
+import Balm.Impl.Solver
 /-!
 # `balmdriver` – line protocol between the Python harness and the Lean model
 
@@ -198,6 +200,39 @@ def handle (S : Session) (toks : List String) : Session × String :=
       let r := successionsOf d t
       (S, if r == [[]] then "EMPTY" else
         String.intercalate " ; " (sortStrs (r.map fun su => String.intercalate "," (su.map showSpace))))
+    | _, _ => bad
+  | "STRICT" :: sp :: order => match parseSpace n sp with
+    | some p =>
+      let ord : List (Fin n) := order.filterMap fun x => x.toNat?.bind fun k => if h : k < n then some ⟨k, h⟩ else none
+      (S, showSpace (percStrict N p (if ord.isEmpty then List.finRange n else ord)))
+    | none => bad
+  | ["CONFLICTS", sp] => match parseSpace n sp with
+    | some p => (S, String.intercalate " " ((conflictsOf N p).map fun i => toString i.val))
+    | none => bad
+  | ["CONSTFN"] => (S, String.intercalate " " (((List.finRange n).filter (isConstFn N)).map fun i => toString i.val))
+  | ["TT"] => (S, String.intercalate " " ((List.finRange n).map fun i =>
+      String.mk ((allStates n).map fun s => if N.f i s then '1' else '0')))
+  | ["STATES"] => (S, String.intercalate " " ((allStates n).map showState))
+  | "SOLVE" :: pr :: rev :: ens :: srcs :: avoid =>
+    match parseSpace n ens, parseSpaces n avoid with
+    | some e, some av =>
+      let sl : List (Fin n) := if srcs == "-" then [] else
+        (srcs.splitOn ",").filterMap fun x => x.toNat?.bind fun k => if h : k < n then some ⟨k, h⟩ else none
+      let prb := if pr == "min" then Problem.min else if pr == "max" then Problem.max else Problem.fix
+      (S, String.intercalate " " (sortStrs ((solveRef N (rev == "1") prb e av sl).map showSpace)))
+    | _, _ => bad
+  | "REDFP" :: ret :: ens :: avoid =>
+    match parseSpace n ret, parseSpace n ens, parseSpaces n avoid with
+    | some r, some e, some av => (S, String.intercalate " " (sortStrs ((reducedFixedPoints N r e av).map showState)))
+    | _, _, _ => bad
+  | "PNCHECK" :: ens :: ts =>
+    match parseSpace n ens, ts.mapM (fun (t : String) => match t.splitOn ":" with
+        | [v, d, c] => (do
+            let v ← v.toNat?
+            let c ← parseSpace n c
+            if h : v < n then pure ({ v := ⟨v, h⟩, up := d == "up", c := c } : Trans n) else none)
+        | _ => none) with
+    | some e, some tl => (S, verdict (faithfulOnB N e tl))
     | _, _ => bad
   | "ADOPT" :: rest => match parseDump n rest with
     | some d => ({ S with diag := d.toDiag }, "OK")
